@@ -31,10 +31,14 @@ PATHS = {
     'dotted3': '/{a.c.d=deep/*}/x',
     'two-vars': '/{parent=shelves/*}/books/{name}',
     'verb-suffix': '/{name=shelves/*}:check',
+    'dotted-reserved-root': '/{license.name=licenses/*}',
+    'dotted-reserved-leaf': '/{a.type=types/*}',
     'int-var': '/ids/{id}',
     'bool-var': '/flags/{flag}',
 }
 BODIES = {'none': None, 'star': '*', 'field': 'payload', 'reserved-field': 'class'}
+# a body field that is also the root of the dotted path variable (the usual Update shape)
+EXTRA_CELLS = [('patch', 'dotted-reserved-root', 'license'), ('patch', 'dotted', 'a'), ('post', 'dotted3', 'a')]
 
 
 def base_messages():
@@ -46,7 +50,8 @@ def base_messages():
                             field('from', 7, 'string'), field('snake_case_name', 8, 'string')],
                 nested=[lab_e, message('Inner', [field('v', 1, 'double'), field('deep_name', 2, 'string')])]),
         message('C', [field('d', 1, 'string'), field('e', 2, 'int32')]),
-        message('A', [field('b', 1, 'string'), field('c', 2, Q('C')), field('zone', 3, 'string')]),
+        message('A', [field('b', 1, 'string'), field('c', 2, Q('C')), field('zone', 3, 'string'), field('type', 4, 'string')]),
+        message('Lic', [field('name', 1, 'string'), field('terms', 2, 'string'), field('format', 3, 'string')]),
         message('QMsg', [field('x', 1, 'int32'), field('y_name', 2, 'string'), field('kind', 3, 'enum:' + Q('Color'))]),
         message('Req', [
             field('name', 1, 'string'), field('parent', 2, 'string'), field('id', 3, 'int64'), field('flag', 4, 'bool'),
@@ -57,7 +62,9 @@ def base_messages():
             field('q_ts', 17, '.google.protobuf.Timestamp'), field('q_mask', 18, '.google.protobuf.FieldMask'),
             field('q_rep_enum', 19, 'enum:' + Q('Color'), repeated=True), field('q_u32', 20, 'uint32'),
             field('q_bool', 21, 'bool'), field('q_dur', 22, '.google.protobuf.Duration'),
-            field('q_wrapped', 23, '.google.protobuf.Int64Value')], nested=[qmap_e]),
+            field('q_wrapped', 23, '.google.protobuf.Int64Value'), field('license', 24, Q('Lic')),
+            field('q_opt_enum', 25, 'enum:' + Q('Color'), optional=True), field('q_opt_str', 26, 'string', optional=True),
+            field('q_opt_bool', 27, 'bool', optional=True)], nested=[qmap_e]),
         message('Resp', [field('ok', 1, 'bool'), field('kind', 2, 'enum:' + Q('Color')), field('big', 3, 'int64'),
                          field('note_text', 4, 'string'), field('items', 5, Q('QMsg'), repeated=True)]),
     ]
@@ -84,12 +91,17 @@ def kits():
     out['required-enum-message'] = (
         message('KitEM', [field('name', 1, 'string', required=True), field('r_enum', 2, 'enum:' + Q('Color'), required=True),
                           field('r_msg', 3, Q('QMsg'), required=True), field('r_rep', 4, 'string', repeated=True, required=True),
-                          field('r_opt', 5, 'int32', optional=True, required=True)]),
+                          field('r_opt', 5, 'int32', optional=True, required=True),
+                          field('r_opt_enum', 6, 'enum:' + Q('Color'), optional=True, required=True)]),
         ('get', '/v1/kit/em/{name=shelves/*}'), 'KitEM')
     out['required-reserved-names'] = (
         message('KitReserved', [field('license', 1, 'string', required=True), field('from', 2, 'string', required=True),
                                 field('type', 3, 'int32', required=True), field('plain', 4, 'string')]),
         ('get', '/v1/kit/reserved/{license=licenses/*}'), 'KitReserved')
+    out['required-two-path-vars'] = (
+        message('KitTwoVars', [field('parent', 1, 'string', required=True), field('part', 2, 'string', required=True),
+                               field('rev', 3, 'int32', required=True), field('verbose', 4, 'bool')]),
+        ('get', '/v1/kit/twovars/{parent=shelves/*}/parts/{part=*}/revs/{rev}'), 'KitTwoVars')
     out['required-nested-path'] = (
         message('KitNested', [field('a', 1, Q('A'), required=True), field('r_str', 2, 'string', required=True)]),
         ('get', '/v1/kit/nested/{a.b=apps/*}'), 'KitNested')
@@ -106,6 +118,11 @@ def build(numeric):
         rpc = f'M{i}'
         meths.append(method(rpc, Q('Req'), Q('Resp'), http=(verb, uri, BODIES[bd])))
         cells.append(dict(id=f'{verb}/{ps}/{bd}', rpc=rpc, py=f'm{i}', req=Q('Req'), kind='product'))
+    for verb, ps, body_field in EXTRA_CELLS:
+        i += 1
+        rpc = f'M{i}'
+        meths.append(method(rpc, Q('Req'), Q('Resp'), http=(verb, f'/v1/c{i}' + PATHS[ps], body_field)))
+        cells.append(dict(id=f'{verb}/{ps}/body-is-var-root:{body_field}', rpc=rpc, py=f'm{i}', req=Q('Req'), kind='product'))
     # additional-binding deviations on fixed verb/path
     for bd in ('star', 'none', 'field'):
         for nb in (1, 2):
